@@ -259,6 +259,10 @@ def run(ctx):
         if o["rule"] == "R16.7" and "refusal-built-only-in-admission" in o["key"]:
             ctx._add(o["status"], "R06.8", o["key"], o["desc"] + " [the decision table of R06.1 is the only place a put is refused for weight or space]", o["where"], o["detail"])
 
+    # ---- R06.9 (= C03 R03.7) "fits in the free space" is judged on the space that is really free
+    import c03
+    c03.retire_before_admission(ctx, "R06.9")
+
     # ---- R06.5 sampler discipline ------------------------------------------------------------------------
     # judged on the paths of the sampler's own functions with its private helpers inlined (a per-key `include(pair)` helper is
     # part of the refill loop)
